@@ -283,8 +283,13 @@ class Context(object):
             wou = self.warnOnUnrecognized
             self.warnOnUnrecognized = False
             for key, value in list(data.items()):
-                n = self[value.get('macroName', 'Macro')]()
-                n.restore(value)
+                try:
+                    n = self[value.get('macroName', 'Macro')]()
+                    n.restore(value)
+                except Exception as msg:
+                    # A malformed entry only loses that label
+                    log.warning('Could not load auxiliary information for %s. (%s)' % (key, msg))
+                    continue
                 self.labels[key] = n
             self.warnOnUnrecognized = wou
         except Exception as msg:
